@@ -19,7 +19,7 @@ THEOREMS = json.loads((Path(__file__).parent / "core_theorems.json").read_text()
 
 # generator profiles per property: (profile, share of the scenario budget)
 PROFILES = {
-    "C01": [("value", 0.6), ("mixed", 0.4)],
+    "C01": [("value", 0.5), ("mixed", 0.3), ("agree", 0.4)],
     "C02": [("spend", 0.6), ("mixed", 0.4)],
     "C03": [("owner", 0.6), ("mixed", 0.4)],
     "C04": [("shape", 0.5), ("mixed", 0.3), ("offgrid", 0.2)],
@@ -28,7 +28,7 @@ PROFILES = {
     "C07": [("mixed", 0.5), ("alias", 0.25), ("fork", 0.25)],
     "C08": [("catchup", 0.8), ("mixed", 0.2)],
     "C10": [("income", 0.6), ("alias", 0.2), ("mixed", 0.2)],
-    "C11": [("pool", 0.7), ("mixed", 0.3)],
+    "C11": [("pool", 0.5), ("agree", 0.5), ("mixed", 0.2)],
     "C12": [("alias", 0.6), ("mixed", 0.4)],
     "C13": [("faults", 0.7), ("mixed", 0.3)],
 }
@@ -75,6 +75,7 @@ def _signature(prop, f):
         m = _PROP_RE.match(text)
         body = m.group(2) if m else text
         clause = re.split(r"\s+(h=|tx=|model=|impl=|\(|:)", body)[0]
+        clause = re.sub(r"\d+", "N", clause)
         clause = re.sub(r"[^A-Za-z0-9+<>=-]+", "-", clause).strip("-")[:80]
         return f"{(m.group(1) if m else prop)}/prop/{clause}"
     if f["kind"] == "diff":
